@@ -119,7 +119,7 @@ Proof.
             | [] => if eof s0 then (s0, Done (RChunk [] false)) else block KReadChunk s0
             end = (s', o) -> endlog s' = (rep ++ report o s') ++ rem s').
   { intros s0 H0 Hr0 He0 E0. destruct (buf s0) as [|f r] eqn:Eb.
-    - destruct (eof s0); [|unfold block in E0]; inversion E0; subst; cbn [report]; rewrite app_nil_r;
+    - destruct (eof s0); [|unfold block in E0; destruct (wait_exc s0)]; inversion E0; subst; cbn [report]; rewrite app_nil_r;
         unfold rem in *; cbn [splits endlog set_wt] in *; rewrite Hr0, app_nil_r; reflexivity.
     - assert (Hg : grow s0 (fst (rnc (-1) f r s0))) by (apply grow_rnc; rewrite Hr0; constructor).
       destruct (rnc (-1) f r s0) as [s1 d]. inversion E0; subst. cbn [fst report] in *.
@@ -182,7 +182,7 @@ Lemma J_step o y rep : chunk_only_op o -> J y rep ->
 Proof.
   intros Ho [HS [He Hk]].
   pose proof (step_SysP Inv Inv_feed Inv_begin Inv_end Inv_eof Inv_exc Inv_pend Inv_consume_resume Inv_marks
-                (fun s H _ _ _ => Inv_wt s Waiting H) (fun s H => Inv_wt s NoTask H) Inv_pop Inv_unread o y HS) as HS1.
+                (fun s H _ _ _ _ => Inv_wt s Waiting H) (fun s H => Inv_wt s NoTask H) Inv_pop Inv_unread o y HS) as HS1.
   split; [exact HS1|]. clear HS1. destruct HS as [HI Ht].
   assert (Hgrow : forall s', grow (sst y) s' -> endlog s' = (rep ++ []) ++ rem s').
   { intros s' [_ [suf [G1 [G2 _]]]]. rewrite G1, G2, He, app_nil_r, app_assoc. reflexivity. }
@@ -200,7 +200,7 @@ Proof.
     destruct found as [p|].
     - destruct (readchunk_at p (cursor s)); [intros X; inversion X|].
       destruct (read_nowait (p - cursor s) s0) as [[s1 d] e]. intros X; inversion X.
-    - destruct (buf s0) as [|f r]; [destruct (eof s0); [intros X; inversion X|unfold block; intros X; inversion X; reflexivity]|].
+    - destruct (buf s0) as [|f r]; [destruct (eof s0); [intros X; inversion X|unfold block; destruct (wait_exc _); intros X; inversion X; reflexivity]|].
       destruct (rnc (-1) f r s0). intros X; inversion X. }
   destruct o; cbn [step]; unfold prod; cbn [fst snd sst task].
   - split; [|exact Hk]. destruct (snd (feed_data d (sst y))); apply Hgrow, grow_feed.
